@@ -140,13 +140,17 @@ def mon_c05(ops, obs, eng):
                     else:
                         rr, t = since[0]
                         names = any(ci["shard"] == s and ci["replica"] == rid for ci in rr["infos"])
+                        # the property text says "reported by its own NodeHost"; the code (and the model) refresh on an entry from ANY
+                        # sender (C05_sender_irrelevant).  Both readings satisfy the text: an entry sent by another address may or may
+                        # not refresh as far as this oracle is concerned (the model tie pins the code's choice).
+                        own = rr["addr"] == c["view"][s]["reps"][rid]["addr"]
                         multi = sum(1 for ci in rr["infos"] if ci["shard"] == s and not ci["pending"] and not ci["incomplete"]) >= 2
-                        fresh = (t, t if names else 0)
+                        fresh = [(t, t if names else 0)] + ([(t, 0)] if names and not own else [])
                         if (s, rid) in exp:
                             f0, l0 = exp[(s, rid)]
-                            cand = [(f0, t if names else l0)] + ([fresh] if multi else [])
+                            cand = [(f0, t if names else l0)] + ([(f0, l0)] if names and not own else []) + (fresh if multi else [])
                         else:
-                            cand = [fresh]
+                            cand = fresh
                         why = "the report processed at time %d from address %d %s it" % (t, rr["addr"], "lists" if names else "does not list")
                     if got not in cand:
                         out.append((oi, "member %d of shard %d has (first seen, last report) = %s, the history dictates %s (%s; before: %s)" % (
